@@ -167,6 +167,17 @@ def laLaw (lk electro : α) (toks : List (Tok α)) : α :=
 `dz[2] = cd_music[2]` -/
 def cdDz (c0 c1 c2 c3 c4 : α) : α × α × α := (c0 + c3 * c4, c1 + (lit 1 - c3) * c4, c2)
 
+/-! ## rewriting a species to the master species (`trxn_add`, used by `rewrite_eqn_to_secondary` / `tidy_species`) -/
+
+/-- `trxn_add(r, coef)` on the CD-MUSIC charge distribution: `trxn.dz[i] += coef * r.dz[i]` -/
+def trxnAddDz (acc : α × α × α) (coef : α) (dz : α × α × α) : α × α × α :=
+  (acc.1 + coef * dz.1, acc.2.1 + coef * dz.2.1, acc.2.2 + coef * dz.2.2)
+
+/-- effective `dz` (relative to the master species) of a species written from non-master parents: its own `-cd_music`
+distribution plus, for every parent with coefficient `c`, `c` times the parent's effective distribution -/
+def rewriteDz (own : α × α × α) (parents : List (α × (α × α × α))) : α × α × α :=
+  parents.foldl (fun acc p => trxnAddDz acc p.1 p.2) own
+
 /-! ## judging a recomputed relation (tolerances of the property: 1e-8 relative) -/
 
 /-- `|a - b| ≤ rel·max(|a|,|b|)` or `|a - b| ≤ abs` -/
